@@ -81,3 +81,28 @@ func Check_StdModels() {
 	sx.Observe("sorted", s, me.code, v, ai.Load())
 	sx.Reach("models")
 }
+
+// Check_UTF8: ranging over a string of symbolic bytes decodes UTF-8 as the
+// runtime does (the engine's decoder against utf8.DecodeRuneInString, and,
+// through the translator validation, against the native range loop).
+func Check_UTF8() {
+	str := sx.Str("s", 3)
+	pos := 0
+	n := 0
+	for i, r := range str {
+		sx.Assert(i >= pos, "rune-offset")
+		sx.Assert(r <= 0x10FFFF && !(r >= 0xD800 && r <= 0xDFFF), "rune-range")
+		// a rune decoded from k bytes lies in the range k bytes can express
+		if r >= 0x800 && r != 0xFFFD {
+			sx.Assert(i == 0 && r <= 0xFFFF, "three-byte-rune")
+		}
+		pos = i + 1
+		n++
+		sx.Observe("rune", i, r)
+	}
+	sx.Assert(n >= 1 && n <= 3, "rune-count")
+	if n < 3 {
+		sx.Reach("multi-byte")
+	}
+	sx.Reach("ascii-or-not")
+}
